@@ -36,12 +36,14 @@ type mutant struct {
 	Repl  string `json:"repl"`
 	start int
 	end   int
+	full  string // the replacement text (Repl is shortened for the report)
 	// outcome
 	Status     string `json:"status"` // killed | survived | invalid
 	ReportedBy string `json:"reported_by,omitempty"`
 }
 
 type mutCollector struct {
+	benign bool
 	prog *Program
 	pkg  *packages.Package
 	src  []byte
@@ -59,7 +61,7 @@ func (m *mutCollector) add(kind string, start, end token.Pos, repl string) {
 	if orig == repl {
 		return
 	}
-	*m.out = append(*m.out, &mutant{File: m.file, Line: s.Line, Func: m.fn, Kind: kind, Orig: trunc(orig, 80), Repl: trunc(repl, 80), start: s.Offset, end: e.Offset})
+	*m.out = append(*m.out, &mutant{File: m.file, Line: s.Line, Func: m.fn, Kind: kind, Orig: trunc(orig, 80), Repl: trunc(repl, 80), start: s.Offset, end: e.Offset, full: repl})
 }
 
 func (m *mutCollector) text(n ast.Node) string {
@@ -79,6 +81,10 @@ func basicInfo(t types.Type) types.BasicInfo {
 
 func (m *mutCollector) walk(body ast.Node) {
 	info := m.pkg.TypesInfo
+	if m.benign {
+		m.walkBenign(body)
+		return
+	}
 	ast.Inspect(body, func(n ast.Node) bool {
 		switch x := n.(type) {
 		case *ast.BinaryExpr:
@@ -222,7 +228,87 @@ func (m *mutCollector) walk(body ast.Node) {
 	})
 }
 
+// walkBenign: edits that preserve behaviour by construction (used to measure false alarms of the rules).
+func (m *mutCollector) walkBenign(body ast.Node) {
+	info := m.pkg.TypesInfo
+	pureOperand := func(e ast.Expr) bool {
+		ok := true
+		ast.Inspect(e, func(n ast.Node) bool {
+			switch n.(type) {
+			case *ast.CallExpr, *ast.IndexExpr, *ast.StarExpr, *ast.SliceExpr, *ast.TypeAssertExpr, *ast.UnaryExpr:
+				ok = false
+			}
+			return ok
+		})
+		return ok
+	}
+	ast.Inspect(body, func(n ast.Node) bool {
+		switch x := n.(type) {
+		case *ast.BinaryExpr:
+			lt := info.TypeOf(x.X)
+			num := basicInfo(lt)&types.IsNumeric != 0
+			switch x.Op {
+			case token.ADD, token.MUL:
+				// float addition/multiplication is commutative (not associative): swap the two operands when neither can panic
+				if num && pureOperand(x.X) && pureOperand(x.Y) {
+					m.add("eq-commute", x.Pos(), x.End(), "("+m.text(x.Y)+") "+x.Op.String()+" ("+m.text(x.X)+")")
+				}
+			case token.LSS, token.LEQ, token.GTR, token.GEQ:
+				if pureOperand(x.X) && pureOperand(x.Y) {
+					mir := map[token.Token]string{token.LSS: ">", token.LEQ: ">=", token.GTR: "<", token.GEQ: "<="}[x.Op]
+					m.add("eq-mirror", x.Pos(), x.End(), "("+m.text(x.Y)+") "+mir+" ("+m.text(x.X)+")")
+				}
+			case token.EQL, token.NEQ:
+				if pureOperand(x.X) && pureOperand(x.Y) {
+					if _, isNil := x.Y.(*ast.Ident); !(isNil && m.text(x.Y) == "nil") {
+						m.add("eq-commute", x.Pos(), x.End(), "("+m.text(x.Y)+") "+x.Op.String()+" ("+m.text(x.X)+")")
+					}
+				}
+			}
+		case *ast.IfStmt:
+			if x.Init == nil && x.Else != nil {
+				if eb, ok := x.Else.(*ast.BlockStmt); ok {
+					// if c {A} else {B}  ->  if !(c) {B} else {A}
+					m.add("eq-flipif", x.Pos(), x.End(), "if !("+m.text(x.Cond)+") "+m.text(eb)+" else "+m.text(x.Body))
+				}
+			}
+		case *ast.AssignStmt:
+			if len(x.Lhs) == 1 && len(x.Rhs) == 1 {
+				if id, ok := x.Lhs[0].(*ast.Ident); ok && basicInfo(info.TypeOf(id))&types.IsNumeric != 0 {
+					switch x.Tok {
+					case token.ADD_ASSIGN:
+						m.add("eq-expandop", x.Pos(), x.End(), id.Name+" = "+id.Name+" + ("+m.text(x.Rhs[0])+")")
+					case token.SUB_ASSIGN:
+						m.add("eq-expandop", x.Pos(), x.End(), id.Name+" = "+id.Name+" - ("+m.text(x.Rhs[0])+")")
+					}
+				}
+			}
+		case *ast.IncDecStmt:
+			if id, ok := x.X.(*ast.Ident); ok {
+				if x.Tok == token.INC {
+					m.add("eq-expandop", x.Pos(), x.End(), id.Name+" += 1")
+				} else {
+					m.add("eq-expandop", x.Pos(), x.End(), id.Name+" -= 1")
+				}
+			}
+		case *ast.ReturnStmt:
+			if len(x.Results) == 1 {
+				if t := info.TypeOf(x.Results[0]); t != nil {
+					if _, isTuple := t.(*types.Tuple); !isTuple && m.text(x.Results[0]) != "nil" {
+						m.add("eq-temp", x.Pos(), x.End(), "{ zzTmp := "+m.text(x.Results[0])+"; return zzTmp }")
+					}
+				}
+			}
+		}
+		return true
+	})
+}
+
 func enumerateMutants(prog *Program) []*mutant {
+	return enumerateEdits(prog, false)
+}
+
+func enumerateEdits(prog *Program, benign bool) []*mutant {
 	var out []*mutant
 	for _, pk := range prog.Pkgs {
 		if isTestUtils(pk.PkgPath) {
@@ -248,7 +334,7 @@ func enumerateMutants(prog *Program) []*mutant {
 						fn = funcKey(sf)
 					}
 				}
-				mc := &mutCollector{prog: prog, pkg: pk, src: src, file: name, fn: fn, out: &out}
+				mc := &mutCollector{benign: benign, prog: prog, pkg: pk, src: src, file: name, fn: fn, out: &out}
 				mc.walk(fd.Body)
 			}
 		}
@@ -273,7 +359,7 @@ func applyMutants(ms []*mutant) map[string][]byte {
 		}
 		sort.Slice(list, func(i, j int) bool { return list[i].start > list[j].start })
 		for _, m := range list {
-			src = append(append(append([]byte{}, src[:m.start]...), []byte(padLines(m.Repl, src[m.start:m.end]))...), src[m.end:]...)
+			src = append(append(append([]byte{}, src[:m.start]...), []byte(padLines(m.full, src[m.start:m.end]))...), src[m.end:]...)
 		}
 		out[f] = src
 	}
@@ -431,7 +517,11 @@ func selftestMutants(prog *Program, repo, verif string, shard, shards int, kinds
 	work := filepath.Join(verif, "work", fmt.Sprintf("mut%d", os.Getpid()))
 	os.MkdirAll(work, 0o755)
 	defer os.RemoveAll(work)
-	ms := enumerateMutants(prog)
+	benign := kinds == "benign"
+	ms := enumerateEdits(prog, benign)
+	if benign {
+		kinds = ""
+	}
 	if kinds != "" {
 		want := map[string]bool{}
 		for _, k := range strings.Split(kinds, ",") {
@@ -537,6 +627,9 @@ func selftestMutants(prog *Program, repo, verif string, shard, shards int, kinds
 				m.Status = "killed"
 				m.ReportedBy = joinKeys(rules)
 				k++
+			} else if benign && len(viol) == 0 {
+				m.Status = "survived" // behaviour-preserving edit, nothing reported anywhere: quiet
+				s++
 			} else {
 				pendingSingles = append(pendingSingles, m)
 				s++
